@@ -47,6 +47,17 @@ def config_schedule(i):
     return c, o, flip, gs
 
 
+def config_random(rng, interior_bias=0.7):
+    """Random configuration; objectives whose optimum is a constant classifier (selection_rate, TPR, TNR as objective)
+    are down-weighted so that most fits have an interior optimum and a genuinely randomised rule."""
+    c = CONSTRAINTS[int(rng.integers(0, len(CONSTRAINTS)))]
+    if c == "equalized_odds" or rng.random() < interior_bias:
+        o = gen.pick(rng, ["accuracy_score", "balanced_accuracy_score"])
+    else:
+        o = gen.pick(rng, ["selection_rate", "true_positive_rate", "true_negative_rate"])
+    return c, o, bool(rng.random() < 0.5), GRID_SIZES[int(rng.integers(0, len(GRID_SIZES)))]
+
+
 _ROW_TYPES = [(g, l, s) for g in (0, 1) for l in (0, 1) for s in (0, 1, 2)]
 
 
@@ -73,7 +84,7 @@ def rows_of_multiset(combo, levels=(0.0, 1.0, 2.0)):
 SCORE_FAMILIES = ["few_levels", "rationals", "gauss", "huge", "tiny_gaps", "probabilities", "constant_in_group", "ladder", "ladder"]
 
 
-def random_dataset(rng, family=None, kmax=5, nmax=40, max_levels=None):
+def random_dataset(rng, family=None, kmax=5, nmax=40, max_levels=None, informative=None):
     k = int(rng.integers(2, kmax + 1))
     n = int(rng.integers(2 * k, max(2 * k, nmax) + 1))
     gi = gen.skewed_labels(rng, n, k).tolist()
@@ -111,6 +122,17 @@ def random_dataset(rng, family=None, kmax=5, nmax=40, max_levels=None):
         s = rng.normal(size=n)
         a = int(rng.integers(0, k))
         s[[i for i in range(n) if gi[i] == a]] = float(rng.normal())
+    if informative is None:
+        informative = bool(rng.random() < 0.5)
+    if informative and family != "ladder":
+        # make the scores carry signal about the label (interior optima, genuinely randomised rules)
+        s = np.asarray(s, dtype=float)
+        spread = float(s.max() - s.min()) or 1.0
+        if family in ("few_levels", "rationals", "tiny_gaps"):
+            step = {"few_levels": 1.0, "rationals": 0.5, "tiny_gaps": 2e-9}[family]
+            s = s + np.asarray(y) * step * (rng.random(n) < 0.7)
+        else:
+            s = s + np.asarray(y) * spread * rng.uniform(0.2, 1.0) * (rng.random(n) < 0.8)
     if max_levels is not None:
         # limit the number of distinct scores per group (keeps the reference's pair enumeration small)
         s = np.asarray(s, dtype=float)
